@@ -403,6 +403,31 @@ func c08Accept(c *ctx, pr *Protocol) {
 									accepted = true
 								}
 							}
+							// a private predicate of the round (`acceptable(msg)`: present and accepted): what all its
+							// true returns establish about its parameter holds for the argument
+							if h := core.Callee(call); f.Bool && core.PrivateHelper(h) && !call.Call.IsInvoke() {
+								if hf, has := core.ReturnFacts(h, 0, true); has {
+									for k, hp := range h.Params {
+										if k >= len(call.Call.Args) {
+											continue
+										}
+										an, idx := elemOfArray(call.Call.Args[k])
+										if an != arr || idx != os.idx {
+											continue
+										}
+										for _, g := range hf {
+											if g.Kind == core.FNil && !g.Bool && core.Strip(g.X) == ssa.Value(hp) {
+												nonnil = true
+											}
+											if g.Kind == core.FCall && g.Bool {
+												if gc := g.X.(*ssa.Call); strings.HasSuffix(core.CalleeName(gc), ".CanAccept") && len(gc.Call.Args) == 2 && core.Strip(gc.Call.Args[1]) == ssa.Value(hp) {
+													accepted = true
+												}
+											}
+										}
+									}
+								}
+							}
 						}
 					}
 					if !nonnil || !accepted {
